@@ -395,4 +395,48 @@ def xflush (caps : TermPen.Caps) (n : Nat) (cache : Pen) (reqs : List Req) : XFl
 /-- Everything the terminal receives. -/
 def XFlushRes.stream (r : XFlushRes) : Bytes := r.during.flatten ++ r.final
 
+/-! ## Pause and resume between two flushes
+
+  `tickit_term_pause` makes the xterm driver write its `teardown()` bytes - for the modes this configuration leaves
+  alone only the pen reset `CSI m` - and flushes; `tickit_term_resume` makes it write its `resume()` bytes (none for
+  those modes) and then calls `chpen(driver, tt->pen, tt->pen)`: the cached pen is delta and final pen at once, so
+  every attribute `tt->pen` holds is sent again.  `tt->pen` itself is not touched by either.  The output-layer side
+  is C11's (`TermBuf.termPause` / `termResume`, literals regenerated from the source); the pen bytes are C10's
+  (`TermPen.xtermChpen`). -/
+
+/-- The driver's `chpen(delta, final)` as `write_str` calls: at most one. -/
+def drvChpenCalls (caps : TermPen.Caps) (delta final : Pen) : List Bytes :=
+  match TermPen.xtermChpen caps Tickit.Gen.Sgr.paramsCap (toTP delta) (toTP final) with
+  | .bytes bs => call (bs.map UInt8.ofNat)
+  | .overflow _ => []
+
+/-- The last statement of `tickit_term_resume`; `resends` = the working tree has it
+    (`Gen.TermBuf.term_resume_resends_pen`, read from the source). -/
+def resumePenCalls (resends : Bool) (caps : TermPen.Caps) (cache : Pen) : List Bytes :=
+  if resends then drvChpenCalls caps cache cache else []
+
+/-- The output layer of a started terminal (cursor visible, main screen) with a buffer of `n` bytes, nothing pending. -/
+def startedState (n : Nat) : TermBuf.State := { outState n with mode := { started := true } }
+
+/-- What the harness observes of `tickit_term_pause; tickit_term_resume; tickit_term_flush`. -/
+structure XSuspendRes where
+  /-- chunks delivered during `tickit_term_pause` (it ends with a flush) -/
+  paused : List Bytes
+  /-- chunks delivered during `tickit_term_resume` -/
+  resumed : List Bytes
+  /-- the chunk of the `tickit_term_flush` afterwards -/
+  final : Bytes
+  ok : Bool
+
+def xsuspend (resends : Bool) (caps : TermPen.Caps) (n : Nat) (cache : Pen) : XSuspendRes :=
+  match TermBuf.termPause (startedState n) with
+  | .ok st1 =>
+    match (TermBuf.termResume { st1 with out := [] }).bind fun st => writeCalls st (resumePenCalls resends caps cache) with
+    | .ok st2 => { paused := chunkBytes st1.out, resumed := chunkBytes st2.out, final := st2.buf, ok := true }
+    | _ => { paused := chunkBytes st1.out, resumed := [], final := [], ok := false }
+  | _ => { paused := [], resumed := [], final := [], ok := false }
+
+/-- Everything the terminal receives from a pause followed by a resume. -/
+def XSuspendRes.stream (r : XSuspendRes) : Bytes := r.paused.flatten ++ r.resumed.flatten ++ r.final
+
 end Tickit.RBFlushX
